@@ -167,10 +167,32 @@ def parse_case_answer(line):
     return d
 
 
+def schema_canon(ans):
+    """impl: 'schema ok hex f,o,s,a,ty;... csv=..'; model: 'schema ok hex d,o,s,a;...' -> (hex, [(depth,o,s,a)])"""
+    p = ans.split(' ')
+    if len(p) < 3 or p[1] != 'ok':
+        return None
+    rows = []
+    for r in (p[3].split(';') if len(p) > 3 else []):
+        if not r: continue
+        f = r.split(',')
+        if f[0].isdigit():
+            d = int(f[0])
+        else:
+            d = 0 if f[0] == 'PADDING' else len(f[0].split('.'))
+        rows.append((d, int(f[1]), int(f[2]), int(f[3])))
+    return p[2], rows
+
+
 def answers_agree(impl, model):
     """compare one impl answer line with one model answer line"""
     if impl == model:
         return True
+    if impl.startswith('schema ') and model.startswith('schema '):
+        a, b = schema_canon(impl), schema_canon(model)
+        if a is None or b is None:
+            return False
+        return hex_match(a[0], b[0]) and a[1] == b[1]
     a, b = parse_case_answer(impl), parse_case_answer(model)
     if a is None or b is None:
         return False
